@@ -25,6 +25,7 @@ class Ctx:
         self.scratch = Scratch(f"{prop}-w{worker}")
         self.cache = {}
         self.known = set()
+        self.deadline = float("inf")
 
     def close(self):
         for obj in self.cache.values():
@@ -107,6 +108,11 @@ def run_subcheck(sub, ctx, known, tier, checkpoint=None):
     state = {"last": None}
 
     def guarded(case):
+        if time.time() > ctx.deadline:
+            # the time budget of this sub-check is used up: end the search gracefully with what
+            # was explored (recorded in the evidence), never as a failure
+            rec.extra["stopped_by_time_budget"] = 1
+            raise StopSubcheck()
         state["last"] = case
         rec.evaluations += 1
         if checkpoint is not None:
@@ -256,6 +262,8 @@ def main(argv=None):
     parser.add_argument("--nworkers", type=int, required=True)
     parser.add_argument("--out", required=True)
     parser.add_argument("--only", default=None, help="run only this sub-check")
+    parser.add_argument("--budget", type=float, default=0.0,
+                        help="seconds for all sub-checks together (0: unlimited)")
     args = parser.parse_args(argv)
 
     t0 = time.time()
@@ -276,6 +284,10 @@ def main(argv=None):
             if sub.seed_salt == 0:
                 sub.seed_salt = (i + 1) * 7919
             t1 = time.time()
+            if args.budget > 0:
+                subs_left = len(mod.subchecks(args.tier)) - i
+                remaining = max(5.0, t0 + args.budget - t1)
+                ctx.deadline = t1 + remaining / subs_left
             done_failures = list(result["failures"])
 
             def checkpoint(rec, failures, name=sub.name, t1=t1, done_failures=done_failures):
